@@ -36,6 +36,8 @@ pub mod stdx { use vstd::prelude::*;
 pub broadcast axiom fn vec_len_bound<T>(v: Vec<T>) ensures #[trigger] v@.len() <= usize::MAX;
 pub broadcast group std_axioms { vec_len_bound }
 }
+pub assume_specification<T: Clone> [<[T]>::fill] (s: &mut [T], v: T)
+    ensures final(s)@.len() == old(s)@.len(), forall|i: int| 0 <= i < old(s)@.len() ==> #[trigger] final(s)@[i] == v;
 pub assume_specification<T> [<[T]>::swap] (s: &mut [T], a: usize, b: usize)
     requires a < old(s)@.len(), b < old(s)@.len()
     ensures final(s)@ == old(s)@.update(a as int, old(s)@[b as int]).update(b as int, old(s)@[a as int]);
